@@ -1,5 +1,14 @@
 (* C20 — Shared and cyclic pointers survive a round trip with recursion support.
-   Only theorem statements here; each is closed by a lemma from Proofs/GraphProofs.v. *)
+   Only theorem statements here; each is closed by a lemma from Proofs/GraphProofs.v.
+
+   Vocabulary (Model/Graph.v): a heap maps addresses to struct / slice / map nodes of the Go type
+   N{V int; A,B,C *N; S []*N; M map[int]*N}; [dups] is the set of addresses that
+   duplicates.FindDuplicatePointers reports; [gtrav] is the iterator, [graph_roundtrip rules omit_never]
+   is iterator -> validator (when EnforceRules) -> builder stack for a *N, [iso] (Proofs/GraphProofs.v)
+   says that a map phi sends the objects reachable from the root one-to-one onto objects of the
+   result of the same kind and payload whose references are, label by label, the images of the
+   original references (so shared and cyclic positions are shared and cyclic in the same places,
+   and nothing else is shared). *)
 From CE Require Import Model.Graph Proofs.GraphProofs.
 Open Scope N_scope.
 
@@ -12,3 +21,109 @@ Theorem C20_graph_marshal_terminates :
     exists t s, gtrav h dups omit_never (graph_fuel h dups) root ist0 = Some (t, s).
 Proof. exact graph_marshal_terminates. Qed.
 Print Assumptions C20_graph_marshal_terminates.
+
+(* ... and a larger budget never changes the answer. *)
+Theorem C20_graph_marshal_fuel_independent :
+  forall h dups omit_never fuel fuel' r s x,
+    (fuel <= fuel')%nat ->
+    gtrav h dups omit_never fuel r s = Some x -> gtrav h dups omit_never fuel' r s = Some x.
+Proof. exact gtrav_mono. Qed.
+Print Assumptions C20_graph_marshal_fuel_independent.
+
+(* The builder stack, run on the events of any call tree of the iterator, performs the tree's
+   denotation: markers register the finished container, references are set at once or by a
+   deferred setter (eff_val b_ref b_mark). *)
+Theorem C20_builder_runs_denotation :
+  forall t f s f' s' stk rest,
+    eff_val b_ref b_mark t f s = Some (f', s') ->
+    brun (f :: stk, s) (flatten t ++ rest) = brun (f' :: stk, s') rest.
+Proof. exact brun_eff. Qed.
+Print Assumptions C20_builder_runs_denotation.
+
+(* The validator's marker bookkeeping accepts the document of every tree whose marker ids are
+   distinct and whose references name markers of the tree (markers inside marked objects included). *)
+Theorem C20_validator_accepts :
+  forall t,
+    is_omit t = false -> NoDup (tm_bids t) -> (forall b, In b (tm_rids t) -> In b (tm_bids t)) ->
+    vmark (doc_events t) = true.
+Proof. exact vmark_doc. Qed.
+Print Assumptions C20_validator_accepts.
+
+(* The property, in full: every typed heap without dangling addresses, marshaled with the marked
+   set FindDuplicatePointers computes and unmarshaled into a *N, comes back isomorphic — for every
+   omit behaviour and with the validator on or off.  (Under the default omit behaviour an empty
+   slice or map is left out and comes back nil; that difference is not counted: such heaps are
+   excluded for omit_never = false, as the harness's oracle identifies nil and empty.) *)
+Definition C20_full : Prop :=
+  forall rules omit_never h root,
+    typed h root = true -> closed h root = true ->
+    (omit_never = false -> no_empty_containers h = true) ->
+    exists h' root' phi,
+      graph_roundtrip rules omit_never h (gdups_of h root) root = RtOk h' root' /\ iso phi h root h' root'.
+
+(* It does not hold.  Witness 1 (key C20/nil-map-written-as-null-rejected): with
+   DefaultFieldOmitBehavior = OmitFieldNever a nil map field is written as null, and the map
+   builder hands that null to its key builder, which refuses it. *)
+(* w_nilmap = one struct node, all fields nil (Proofs/GraphProofs.v) *)
+Theorem C20_nil_map_refuted :
+  typed w_nilmap (Some 1) = true /\ closed w_nilmap (Some 1) = true /\
+  graph_roundtrip true true w_nilmap (gdups_of w_nilmap (Some 1)) (Some 1) = RtBuildError.
+Proof. exact nil_map_refuted. Qed.
+Print Assumptions C20_nil_map_refuted.
+
+(* Witness 2 (key C20/empty-map-sharing-lost): FindDuplicatePointers does not register maps of
+   length 0, so two fields holding the same empty map come back holding two different maps. *)
+(* w_emptymap = two struct nodes whose M fields hold the same empty map *)
+Theorem C20_empty_map_refuted :
+  typed w_emptymap (Some 1) = true /\ closed w_emptymap (Some 1) = true /\
+  exists h' root',
+    graph_roundtrip true true w_emptymap (gdups_of w_emptymap (Some 1)) (Some 1) = RtOk h' root' /\
+    forall phi, ~ iso phi w_emptymap (Some 1) h' root'.
+Proof. exact empty_map_not_iso. Qed.
+Print Assumptions C20_empty_map_refuted.
+
+Theorem C20_full_refuted : ~ C20_full.
+Proof. exact graph_full_refuted. Qed.
+Print Assumptions C20_full_refuted.
+
+(* What holds (partial): default omit behaviour, validator on or off, every typed heap without
+   dangling addresses and without empty containers, and every marked set that (cover_ok) meets
+   every cycle and (indeg_ok) contains every object referenced more than once — what
+   FindDuplicatePointers is specified to return; the harness checks both on the library's own
+   answer for every generated graph.  Excluded: exactly the configuration OmitFieldNever (witnesses
+   1 and 2), and marked sets violating the two conditions. *)
+Theorem C20_graph_roundtrip_iso_partial :
+  forall rules h dups root,
+    typed h root = true -> closed h root = true -> no_empty_containers h = true ->
+    cover_ok h dups = true -> indeg_ok h root dups = true -> N.of_nat (length dups) < 4294967296 ->
+    exists h' root' phi, graph_roundtrip rules false h dups root = RtOk h' root' /\ iso phi h root h' root'.
+Proof. exact graph_roundtrip_iso. Qed.
+Print Assumptions C20_graph_roundtrip_iso_partial.
+
+(* Non-vacuity: a heap with a cycle through a struct, a slice and a map, a shared leaf and a shared
+   object inside a shared object; the marked set is the one the model of FindDuplicatePointers
+   computes; every hypothesis of the partial theorem holds. *)
+Definition ex_heap : heap :=
+  [(1, sn 1 (Some 2) (Some 2) None (Some 4) (Some 5));
+   (2, sn 2 (Some 3) (Some 3) None None None);
+   (3, sn (-3) None None None None None);
+   (4, mkNode KSlice [(LI 0, Some 1); (LI 1, None); (LI 2, Some 3)]);
+   (5, mkNode KMap [(LK 7%Z, Some 2); (LK (-1)%Z, None)])].
+Example C20_hypotheses_satisfiable :
+  let d := gdups_of ex_heap (Some 1) in
+  typed ex_heap (Some 1) = true /\ closed ex_heap (Some 1) = true /\ no_empty_containers ex_heap = true /\
+  cover_ok ex_heap d = true /\ indeg_ok ex_heap (Some 1) d = true /\ N.of_nat (length d) < 4294967296 /\
+  (forall x, In x d <-> x = 1 \/ x = 2 \/ x = 3).
+Proof. vm_compute. repeat split; try reflexivity; intuition congruence. Qed.
+
+(* The old witness of the validator defect (a marker inside a marked object: fixed in /repo by
+   192c5da) now comes back. *)
+Definition w_nested : heap :=
+  [(1, sn 12 (Some 2) (Some 2) None None None); (2, sn 11 (Some 3) (Some 3) None None None);
+   (3, sn 10 None None None None None)].
+Example C20_nested_marker_pinned :
+  match graph_roundtrip true false w_nested (gdups_of w_nested (Some 1)) (Some 1) with
+  | RtOk h' r' => giso_check w_nested (Some 1) h' r' && giso_check h' r' w_nested (Some 1)
+  | _ => false
+  end = true.
+Proof. vm_compute. reflexivity. Qed.
